@@ -102,6 +102,72 @@ feature tst1 {
         mb = {"kind": "mbase", "flag": {}, "marks": {"acute": ("TOP", (100, 500))}, "bases": {"a": {"TOP": (250, 450)}, "b": {"TOP": (120, -20)}}}
         m = _model([], [mb], {"tst1": {"GPOS": [0]}}, GDEF)
         t = [(["a", "acute"], on("tst1")), (["b", "acute"], on("tst1"))]
+    elif name == "two-lookups-one-glyph":
+        # lookup records of one marked glyph are applied in the order written, not in lookup-list order
+        fea = """
+lookup TO_C { sub b by c; sub e by g; } TO_C;
+lookup TO_B { sub a by b; sub d by e; } TO_B;
+lookup TO_H { sub c by h; } TO_H;
+feature tst1 {
+    sub a' lookup TO_B lookup TO_C x;
+    sub d' lookup TO_C lookup TO_B y;
+    sub i a' lookup TO_B lookup TO_C lookup TO_H b' lookup TO_C lookup TO_B;
+} tst1;
+lookup P1 { pos a 10; } P1;
+lookup P2 { pos a <5 0 0 0>; } P2;
+feature tst2 {
+    pos a' lookup P2 lookup P1 b;
+} tst2;
+"""
+        fea = fea.replace("x;", "j;").replace("y;", "k;")
+        TO_C, TO_B, TO_H = _s([("b", "c"), ("e", "g")]), _s([("a", "b"), ("d", "e")]), _s([("c", "h")])
+        c1 = {"kind": "chain", "flag": {}, "subtables": [[
+            {"back": [], "input": [["a"]], "ahead": [["j"]], "lookups": [[1, 0]]},
+            {"back": [], "input": [["d"]], "ahead": [["k"]], "lookups": [[0, 1]]},
+            {"back": [["i"]], "input": [["a"], ["b"]], "ahead": [], "lookups": [[1, 0, 2], [0, 1]]}]]}
+        sp = lambda d: {"kind": "spos", "flag": {}, "values": d}
+        cp = {"kind": "cpos", "flag": {}, "subtables": [[{"back": [], "input": [["a"]], "ahead": [["b"]], "lookups": [[1, 0]]}]]}
+        m = _model([TO_C, TO_B, TO_H, c1], [sp({"a": (0, 0, 10, 0)}), sp({"a": (5, 0, 0, 0)}), cp], {"tst1": {"GSUB": [3]}, "tst2": {"GPOS": [2]}})
+        t = [(["a", "j"], on("tst1")), (["d", "k"], on("tst1")), (["i", "a", "b"], on("tst1")), (["a", "b"], on("tst1")), (["a", "b"], on("tst2")),
+             (["a", "j", "d", "k"], on("tst1", "tst2"))]
+    elif name == "script-resets-lookupflag":
+        # "script" implicitly sets lookupflag to 0 (and drops the mark filtering set): the rules after
+        # it must not skip marks
+        fea = GDEF_TXT + """
+feature tst1 {
+    lookupflag UseMarkFilteringSet [acute];
+    sub a b by a_b;
+    script latn;
+    sub f i by f_i;
+    lookupflag IgnoreMarks;
+    sub c d by f_f;
+    script cyrl;
+    sub c d e by c_d_e;
+    pos a b -25;
+} tst1;
+feature tst2 {
+    lookupflag MarkAttachmentType [grave];
+    pos c d 15;
+    script latn;
+    pos f i 35;
+} tst2;
+"""
+        l0 = _s([(("a", "b"), ("a_b",))], {"mfs": ["acute"]})
+        l1 = _s([(("f", "i"), ("f_i",))])
+        l2 = _s([(("c", "d"), ("f_f",))], {"ignore": [3]})
+        l3 = _s([(("c", "d", "e"), ("c_d_e",))])
+        p0 = {"kind": "ppos", "flag": {}, "pairs": [("a", "b", (0, 0, -25, 0), None)], "classes": []}
+        p1 = {"kind": "ppos", "flag": {"mat": ["grave"]}, "pairs": [("c", "d", (0, 0, 15, 0), None)], "classes": []}
+        p2 = {"kind": "ppos", "flag": {}, "pairs": [("f", "i", (0, 0, 35, 0), None)], "classes": []}
+        m = _model([l0, l1, l2, l3], [p0, p1, p2], {}, GDEF)
+        F = lambda d: {"features": d, "required": []}
+        m["langsys"] = {"GSUB": {"DFLT": {"dflt": F({"tst1": [0]})}, "latn": {"dflt": F({"tst1": [1, 2]})}, "cyrl": {"dflt": F({"tst1": [3]})}},
+                        "GPOS": {"DFLT": {"dflt": F({"tst2": [1]})}, "cyrl": {"dflt": F({"tst1": [0]})}, "latn": {"dflt": F({"tst2": [2]})}}}
+        tt = [("DFLT", ["a", "grave", "b"]), ("DFLT", ["a", "acute", "b"]), ("latn", ["f", "grave", "i"]), ("latn", ["f", "acute", "i"]), ("latn", ["f", "i"]),
+              ("latn", ["c", "grave", "d"]), ("cyrl", ["c", "grave", "d", "e"]), ("cyrl", ["c", "d", "e"]), ("cyrl", ["a", "acute", "b"]), ("cyrl", ["a", "b"]),
+              ("DFLT", ["c", "acute", "d"]), ("DFLT", ["c", "grave", "d"]), ("latn", ["f", "acute", "i", "f", "i"]), ("latn", ["f", "grave", "i"])]
+        prog = {"fea": fea.lstrip("\n"), "model": m, "kinds": ["fixed:" + name]}
+        return prog, [("fixed", seq, {"tst1": 1, "tst2": 1}, sc, "dflt") for sc, seq in tt]
     elif name == "pair-subtables":
         fea = """
 feature tst1 {
